@@ -398,6 +398,7 @@ def _run_one(o, mod, dem, ll, wd, tier, seed, R, log, irsym):
     E.layout_dir = wd
     E.watch_enabled = opts.get("watch", "0") == "1"
     E.watch_all = opts.get("only_lock") == "1" or bool(os.environ.get("VF_WATCH_ALL"))
+    E.only_lock = opts.get("only_lock") == "1"
     hf = os.path.join(wd, "harness_funcs.txt")
     if os.path.exists(hf):
         E.harness_funcs = set(re.sub(r"\.\d+$", "", x) for x in open(hf).read().split())
